@@ -36,9 +36,12 @@ def run(ctx):
     cases += [c for c in ctx.tlc_family("FamScale", constants={"Tier": '"quick"'}, timeout=3000) if "world" not in c["prog"] and c["id"].split("/")[1] in ("C01", "C02", "C03", "C04")]        # sizes across the digit boundaries (%10, :_f10, _h10)
     # every ordered pair of features x composition mode (spec/FamPairs.tla), without the world features; quick: every 5th
     pairs = sorted((c for c in progflow.pair_cases(ctx) if "world" not in c["prog"]), key=lambda c: c["id"])
-    cases += pairs[::(5 if quick else 1)]
+    cases += pairs[::(5 if quick else 2)]
     # every control skeleton up to a size (spec/FamSkel.tla) - label allocation for every nesting and sequencing; thorough: size 3 at top level only
-    cases += [c for c in progflow.skel_cases(ctx) if quick or not (c["id"].startswith("skel/3/") and "/func/" in c["id"])]
+    sk = sorted(progflow.skel_cases(ctx), key=lambda c: c["id"])
+    small = [c for c in sk if not c["id"].startswith("skel/3/")]
+    big = [c for c in sk if c["id"].startswith("skel/3/") and "/top/" in c["id"]]
+    cases += small + big[::4]         # the cmd.exe model is about three times as expensive as the bash run: every 4th skeleton of size 3
     cases += progflow.hist_cases(ctx)        # run-time histories (spec/FamHist.tla), whole
     cases += comprun.accepted(ctx, False, 4 if quick else 1) + comprun.accepted(ctx, True, 4 if quick else 1)
     # the repository's own test programs: their stated expectations calibrate the cmd.exe model
